@@ -7,11 +7,16 @@ fire("c10-D11-prefix-unconfirmed-rollback", "C10", "C10.rollback", ("client.go",
 # the confirmation tested the wrong way round
 fire("c10-rollback-confirmation-inverted", "C10", "C10.rollback", ("client.go", "		if !c.delete(msg.TransactionID) {\n			// Transaction is completed already", "		if c.delete(msg.TransactionID) {\n			// Transaction is completed already"))
 fire("c10-do-wait-before-error-test", "C10", "C10.do", ("client.go", "	if err := c.Start(m, h.handler); err != nil {\n		return err\n	}\n	h.wait()\n\n	return nil", "	err := c.Start(m, h.handler)\n	h.wait()\n\n	return err"))
-fire("c10-D4-prefix-no-rollback-on-agent-error", "C10", "C10.rollback", ("client.go", "		if err := c.a.Start(msg.TransactionID, d); err != nil {\n			c.delete(msg.TransactionID)\n\n			return err", "		if err := c.a.Start(msg.TransactionID, d); err != nil {\n			return err"))
+fire("c10-D4-prefix-no-rollback-on-agent-error", "C10", "C10.rollback", ("client.go", "		if err := c.a.Start(msg.TransactionID, d); err != nil {\n			if !c.delete(msg.TransactionID) {\n				// Transaction is completed already, see below.\n				return nil\n			}\n\n			return err", "		if err := c.a.Start(msg.TransactionID, d); err != nil {\n			return err"))
+# D23 (repaired by 41e38f7): the pre-repair form of the agent-error rollback
+fire("c10-D23-prefix-unconfirmed-rollback-agent-error", "C10", "C10.rollback", ("client.go", "			if !c.delete(msg.TransactionID) {\n				// Transaction is completed already, see below.\n				return nil\n			}\n", "			c.delete(msg.TransactionID)\n"))
+# D14 (repaired by 0a7d316): the pre-repair forms of the two error branches of the retransmission path
+fire("c10-D14-prefix-agent-start-branch", "C10", "C10.removal", ("client.go", "	if startErr := c.a.Start(id, timeOut); startErr != nil {\n		if !c.delete(id) {\n			// Transaction is completed already by someone else.\n			return\n		}\n", "	if startErr := c.a.Start(id, timeOut); startErr != nil {\n		c.delete(id)\n"))
+fire("c10-D14-prefix-write-branch", "C10", "C10.removal", ("client.go", "	if writeErr != nil {\n		if !c.delete(id) {\n			// Transaction is completed already by someone else.\n			return\n		}\n", "	if writeErr != nil {\n		c.delete(id)\n"))
 fire("c10-D5-prefix-early-return-when-closed", "C10", "C10.closed", ("client.go", "	c.mux.Lock()\n	closed := c.closed\n	transaction, found := c.t[event.TransactionID]", "	c.mux.Lock()\n	closed := c.closed\n	if closed {\n		c.mux.Unlock()\n\n		return\n	}\n	transaction, found := c.t[event.TransactionID]"))
 fire("c10-wait-if-instead-of-for", "C10", "C10.do", ("client.go", "	for !s.processed {\n		s.cond.Wait()\n	}", "	if !s.processed {\n		s.cond.Wait()\n	}"))
 fire("c10-double-handle", "C10", "C10.removal", ("client.go", "		// Transaction completed.\n		transaction.handle(event)\n", "		// Transaction completed.\n		transaction.handle(event)\n		transaction.handle(event)\n"))
-fire("c10-retransmit-error-handle-while-registered", "C10", "C10.removal", ("client.go", "	if startErr := c.a.Start(id, timeOut); startErr != nil {\n		c.delete(id)\n", "	if startErr := c.a.Start(id, timeOut); startErr != nil {\n"))
+fire("c10-retransmit-error-handle-while-registered", "C10", "C10.removal", ("client.go", "	if startErr := c.a.Start(id, timeOut); startErr != nil {\n		if !c.delete(id) {\n			// Transaction is completed already by someone else.\n			return\n		}\n", "	if startErr := c.a.Start(id, timeOut); startErr != nil {\n"))
 quiet("c10-attempt-guard-commuted", "C10", ("client.go", "atomic.LoadInt32(&c.maxAttempts) <= transaction.attempt", "transaction.attempt >= atomic.LoadInt32(&c.maxAttempts)"))
 quiet("c10-start-reorder-inits", "C10", ("client.go", "		t.id = msg.TransactionID\n		t.start = c.clock.Now()\n		t.h = handler\n", "		t.h = handler\n		t.start = c.clock.Now()\n		t.id = msg.TransactionID\n"))
 seeded("seed-C10-A", "C10", "C10.init", "seeded/C10-A/patch.diff")
